@@ -77,19 +77,27 @@ class CompiledFunction:
 
 @dataclass
 class LoopContext:
-    """Context for loops (for break/continue)."""
+    """An enclosing statement that break, continue or return may have to leave.
+
+    Loops, switch statements and labelled statements are possible targets of
+    break/continue; try statements are only crossed. Every context says what a
+    jump out of it has to undo.
+    """
 
     break_jumps: List[int] = field(default_factory=list)
     continue_jumps: List[int] = field(default_factory=list)
     label: Optional[str] = None
-    is_loop: bool = True  # False for switch statements (break only, no continue)
+    is_loop: bool = True  # False for switch, labelled and try statements
+    labels: List[str] = field(default_factory=list)  # further labels of a loop
+    # Operands the construct keeps on the stack while its body runs (the
+    # iterator of for-in/for-of, the discriminant of switch)
+    stack_items: int = 0
+    is_try: bool = False  # a try statement: never a break/continue target
+    handler_active: bool = False  # inside a region protected by TRY_START
+    finalizer: Any = None  # finally block that runs when control leaves
 
-
-@dataclass
-class TryContext:
-    """Context for try-finally blocks (for break/continue/return)."""
-
-    finalizer: Any = None  # The finally block AST node
+    def has_label(self, name: str) -> bool:
+        return self.label == name or name in self.labels
 
 
 class Compiler:
@@ -101,9 +109,7 @@ class Compiler:
         self.names: List[str] = []
         self.locals: List[str] = []
         self.loop_stack: List[LoopContext] = []
-        self.try_stack: List[TryContext] = (
-            []
-        )  # Track try-finally for break/continue/return
+        self._pending_labels: List[str] = []  # labels of the loop compiled next
         self.functions: List[CompiledFunction] = []
         self._in_function: bool = False  # Track if we're compiling inside a function
         self._outer_locals: List[List[str]] = []  # Stack of outer scope locals
@@ -207,12 +213,57 @@ class Compiler:
         self.bytecode[pos + 1] = target & 0xFF  # Low byte
         self.bytecode[pos + 2] = (target >> 8) & 0xFF  # High byte
 
-    def _emit_pending_finally_blocks(self) -> None:
-        """Emit all pending finally blocks (for break/continue/return)."""
-        # Emit finally blocks in reverse order (innermost first)
-        for try_ctx in reversed(self.try_stack):
-            if try_ctx.finalizer:
-                self._compile_statement(try_ctx.finalizer)
+    def _emit_leave_contexts(
+        self,
+        target: Optional[LoopContext],
+        drop_operands: bool,
+        pending_operands: int = 0,
+    ) -> None:
+        """Emit what a jump needs on its way out of the enclosing contexts.
+
+        Everything inside `target` is left (all contexts of the function when
+        target is None, for return), innermost first: a try block gives up its
+        handler record, a pending finally block runs, and a loop or switch
+        drops the operands it keeps on the stack. `drop_operands` is False for
+        return, whose value (`pending_operands`) is on top of the stack and
+        whose RETURN opcode discards the operands of the frame itself.
+        """
+        contexts = self.loop_stack
+        for i in range(len(contexts) - 1, -1, -1):
+            ctx = contexts[i]
+            if ctx is target:
+                break
+            if ctx.is_try:
+                if ctx.handler_active:
+                    self._emit(OpCode.TRY_END)
+                if ctx.finalizer is not None:
+                    # The finally block is code of the enclosing contexts: a
+                    # break or return inside it must not run it again, and has
+                    # to drop a return value that is waiting on the stack
+                    self.loop_stack = contexts[:i]
+                    if pending_operands:
+                        self.loop_stack.append(
+                            LoopContext(
+                                is_loop=False,
+                                is_try=True,
+                                stack_items=pending_operands,
+                            )
+                        )
+                    self._compile_statement(ctx.finalizer)
+                    self.loop_stack = contexts
+            if drop_operands:
+                for _ in range(ctx.stack_items):
+                    self._emit(OpCode.POP)
+
+    def _new_loop_context(self, stack_items: int = 0) -> LoopContext:
+        """Context of a loop statement; takes over the labels written before it."""
+        labels = self._pending_labels
+        self._pending_labels = []
+        return LoopContext(
+            label=labels[0] if labels else None,
+            labels=labels[1:],
+            stack_items=stack_items,
+        )
 
     def _add_constant(self, value: Any) -> int:
         """Add a constant and return its index."""
@@ -474,7 +525,7 @@ class Compiler:
                 self._patch_jump(jump_false)
 
         elif isinstance(node, WhileStatement):
-            loop_ctx = LoopContext()
+            loop_ctx = self._new_loop_context()
             self.loop_stack.append(loop_ctx)
 
             loop_start = len(self.bytecode)
@@ -497,7 +548,7 @@ class Compiler:
             self.loop_stack.pop()
 
         elif isinstance(node, DoWhileStatement):
-            loop_ctx = LoopContext()
+            loop_ctx = self._new_loop_context()
             self.loop_stack.append(loop_ctx)
 
             loop_start = len(self.bytecode)
@@ -518,7 +569,7 @@ class Compiler:
             self.loop_stack.pop()
 
         elif isinstance(node, ForStatement):
-            loop_ctx = LoopContext()
+            loop_ctx = self._new_loop_context()
             self.loop_stack.append(loop_ctx)
 
             # Init
@@ -560,12 +611,12 @@ class Compiler:
             self.loop_stack.pop()
 
         elif isinstance(node, ForInStatement):
-            loop_ctx = LoopContext()
-            self.loop_stack.append(loop_ctx)
+            loop_ctx = self._new_loop_context(stack_items=1)  # the iterator
 
             # Compile object expression
             self._compile_expression(node.right)
             self._emit(OpCode.FOR_IN_INIT)
+            self.loop_stack.append(loop_ctx)
 
             loop_start = len(self.bytecode)
             self._emit(OpCode.FOR_IN_NEXT)
@@ -617,12 +668,12 @@ class Compiler:
             self.loop_stack.pop()
 
         elif isinstance(node, ForOfStatement):
-            loop_ctx = LoopContext()
-            self.loop_stack.append(loop_ctx)
+            loop_ctx = self._new_loop_context(stack_items=1)  # the iterator
 
             # Compile iterable expression
             self._compile_expression(node.right)
             self._emit(OpCode.FOR_OF_INIT)
+            self.loop_stack.append(loop_ctx)
 
             loop_start = len(self.bytecode)
             self._emit(OpCode.FOR_OF_NEXT)
@@ -668,22 +719,20 @@ class Compiler:
             self.loop_stack.pop()
 
         elif isinstance(node, BreakStatement):
-            if not self.loop_stack:
-                raise self._syntax_error("'break' outside of loop", node)
-
-            # Find the right loop context (labeled or innermost loop/switch)
+            # Find the target (labelled statement, or innermost loop or switch)
             target_label = node.label.name if node.label else None
             ctx = None
             for loop_ctx in reversed(self.loop_stack):
+                if loop_ctx.is_try:
+                    continue
                 if target_label is not None:
                     # Labeled break - find the matching label
-                    if loop_ctx.label == target_label:
+                    if loop_ctx.has_label(target_label):
                         ctx = loop_ctx
                         break
                 else:
-                    # Unlabeled break - find innermost loop or switch
-                    # is_loop=True means it's a loop, is_loop=False with no label means switch
-                    # Skip labeled statements (is_loop=False with label) for unlabeled break
+                    # Unlabeled break - innermost loop or switch (a labelled
+                    # statement that is not a loop is skipped)
                     if loop_ctx.is_loop or loop_ctx.label is None:
                         ctx = loop_ctx
                         break
@@ -694,42 +743,49 @@ class Compiler:
                 else:
                     raise self._syntax_error("'break' outside of loop", node)
 
-            # Emit pending finally blocks before the break
-            self._emit_pending_finally_blocks()
+            # Leave the contexts inside the target: handler records, finally
+            # blocks, loop iterators (the target drops its own operand where
+            # the jump lands)
+            self._emit_leave_contexts(ctx, drop_operands=True)
 
             pos = self._emit_jump(OpCode.JUMP)
             ctx.break_jumps.append(pos)
 
         elif isinstance(node, ContinueStatement):
-            if not self.loop_stack:
-                raise self._syntax_error("'continue' outside of loop", node)
-
-            # Find the right loop context (labeled or innermost loop, not switch)
+            # Find the target loop (labelled or innermost)
             target_label = node.label.name if node.label else None
             ctx = None
             for loop_ctx in reversed(self.loop_stack):
-                # Skip non-loop contexts (like switch) unless specifically labeled
-                if not loop_ctx.is_loop and target_label is None:
+                if not loop_ctx.is_loop:
+                    if target_label is not None and loop_ctx.has_label(target_label):
+                        raise self._syntax_error(
+                            f"label '{target_label}' does not denote a loop", node
+                        )
                     continue
-                if target_label is None or loop_ctx.label == target_label:
+                if target_label is None or loop_ctx.has_label(target_label):
                     ctx = loop_ctx
                     break
 
             if ctx is None:
-                raise self._syntax_error(f"label '{target_label}' not found", node)
+                if target_label:
+                    raise self._syntax_error(f"label '{target_label}' not found", node)
+                else:
+                    raise self._syntax_error("'continue' outside of loop", node)
 
-            # Emit pending finally blocks before the continue
-            self._emit_pending_finally_blocks()
+            self._emit_leave_contexts(ctx, drop_operands=True)
 
             pos = self._emit_jump(OpCode.JUMP)
             ctx.continue_jumps.append(pos)
 
         elif isinstance(node, ReturnStatement):
-            # Emit pending finally blocks before the return
-            self._emit_pending_finally_blocks()
-
+            # The value is computed first; then the finally blocks of every
+            # enclosing try statement run (they leave the stack as it is)
             if node.argument:
                 self._compile_expression(node.argument)
+            self._emit_leave_contexts(
+                None, drop_operands=False, pending_operands=1 if node.argument else 0
+            )
+            if node.argument:
                 self._emit(OpCode.RETURN)
             else:
                 self._emit(OpCode.RETURN_UNDEFINED)
@@ -740,19 +796,21 @@ class Compiler:
             self._emit(OpCode.THROW)
 
         elif isinstance(node, TryStatement):
-            # Push TryContext if there's a finally block so break/continue/return
-            # can inline the finally code
-            if node.finalizer:
-                self.try_stack.append(TryContext(finalizer=node.finalizer))
+            # break/continue/return out of the try block or the catch clause
+            # have to drop the handler record and run the finally block
+            try_ctx = LoopContext(is_loop=False, is_try=True, finalizer=node.finalizer)
+            self.loop_stack.append(try_ctx)
 
             # Try block
             try_start = self._emit_jump(OpCode.TRY_START)
-
+            try_ctx.handler_active = True
             self._compile_statement(node.block)
             self._emit(OpCode.TRY_END)
+            try_ctx.handler_active = False
 
             # Jump past exception handler to normal finally
             jump_to_finally = self._emit_jump(OpCode.JUMP)
+            jump_after_catch = None
 
             # Exception handler
             self._patch_jump(try_start)
@@ -769,20 +827,35 @@ class Compiler:
                 else:
                     self._emit(OpCode.STORE_LOCAL, self._get_local(name))
                 self._emit(OpCode.POP)
-                self._compile_statement(node.handler.body)
+                if node.finalizer:
+                    # An exception thrown by the catch clause still runs the
+                    # finally block: protect the clause with a second handler
+                    # that runs it and rethrows
+                    catch_guard = self._emit_jump(OpCode.TRY_START)
+                    try_ctx.handler_active = True
+                    self._compile_statement(node.handler.body)
+                    self._emit(OpCode.TRY_END)
+                    try_ctx.handler_active = False
+                    jump_after_catch = self._emit_jump(OpCode.JUMP)
+                    self._patch_jump(catch_guard)
+                    self.loop_stack.pop()
+                    self._compile_statement(node.finalizer)
+                    self._emit(OpCode.THROW)  # Rethrow the exception
+                else:
+                    self._compile_statement(node.handler.body)
+                    self.loop_stack.pop()
                 # Fall through to finally
-            elif node.finalizer:
+            else:
                 # No catch, only finally - exception is on stack
                 # Run finally then rethrow
+                self.loop_stack.pop()
                 self._compile_statement(node.finalizer)
                 self._emit(OpCode.THROW)  # Rethrow the exception
 
-            # Pop TryContext before compiling normal finally
-            if node.finalizer:
-                self.try_stack.pop()
-
             # Normal finally block (after try completes normally or after catch)
             self._patch_jump(jump_to_finally)
+            if jump_after_catch is not None:
+                self._patch_jump(jump_after_catch)
             if node.finalizer:
                 self._compile_statement(node.finalizer)
 
@@ -808,7 +881,8 @@ class Compiler:
 
             # Case bodies
             case_positions = []
-            loop_ctx = LoopContext(is_loop=False)  # For break statements only
+            # For break statements only; the discriminant stays on the stack
+            loop_ctx = LoopContext(is_loop=False, stack_items=1)
             self.loop_stack.append(loop_ctx)
 
             for i, case in enumerate(node.cases):
@@ -860,19 +934,41 @@ class Compiler:
             self._emit(OpCode.POP)
 
         elif isinstance(node, LabeledStatement):
-            # Create a loop context for the label
-            # is_loop=False so unlabeled break/continue skip this context
-            loop_ctx = LoopContext(label=node.label.name, is_loop=False)
-            self.loop_stack.append(loop_ctx)
+            labels = [node.label.name]
+            body = node.body
+            while isinstance(body, LabeledStatement):
+                labels.append(body.label.name)
+                body = body.body
+            if isinstance(
+                body,
+                (
+                    WhileStatement,
+                    DoWhileStatement,
+                    ForStatement,
+                    ForInStatement,
+                    ForOfStatement,
+                ),
+            ):
+                # The labels name the loop itself, so that `continue label`
+                # finds it and `break label` lands where the loop ends
+                self._pending_labels = labels
+                self._compile_statement(body)
+            else:
+                # A labelled block or statement: only break can target it
+                # is_loop=False so unlabeled break/continue skip this context
+                loop_ctx = LoopContext(
+                    label=labels[0], labels=labels[1:], is_loop=False
+                )
+                self.loop_stack.append(loop_ctx)
 
-            # Compile the labeled body
-            self._compile_statement(node.body)
+                # Compile the labeled body
+                self._compile_statement(body)
 
-            # Patch break jumps that target this label
-            for pos in loop_ctx.break_jumps:
-                self._patch_jump(pos)
+                # Patch break jumps that target this label
+                for pos in loop_ctx.break_jumps:
+                    self._patch_jump(pos)
 
-            self.loop_stack.pop()
+                self.loop_stack.pop()
 
         else:
             raise NotImplementedError(
@@ -998,7 +1094,7 @@ class Compiler:
         old_constants = self.constants
         old_locals = self.locals
         old_loop_stack = self.loop_stack
-        old_try_stack = self.try_stack
+        old_pending_labels = self._pending_labels
         old_source_map = self.source_map
         old_in_function = self._in_function
         old_free_vars = self._free_vars
@@ -1013,7 +1109,7 @@ class Compiler:
         self.constants = []
         self.locals = [p.name for p in node.params] + ["arguments"]
         self.loop_stack = []
-        self.try_stack = []
+        self._pending_labels = []
         self.source_map = {}
         self._in_function = True
 
@@ -1062,7 +1158,7 @@ class Compiler:
         self.constants = old_constants
         self.locals = old_locals
         self.loop_stack = old_loop_stack
-        self.try_stack = old_try_stack
+        self._pending_labels = old_pending_labels
         self.source_map = old_source_map
         self._in_function = old_in_function
         self._free_vars = old_free_vars
@@ -1090,7 +1186,7 @@ class Compiler:
         old_constants = self.constants
         old_locals = self.locals
         old_loop_stack = self.loop_stack
-        old_try_stack = self.try_stack
+        old_pending_labels = self._pending_labels
         old_source_map = self.source_map
         old_in_function = self._in_function
         old_free_vars = self._free_vars
@@ -1112,7 +1208,7 @@ class Compiler:
             self.locals.append(name)
 
         self.loop_stack = []
-        self.try_stack = []
+        self._pending_labels = []
         self.source_map = {}
         self._in_function = True
 
@@ -1167,7 +1263,7 @@ class Compiler:
         self.constants = old_constants
         self.locals = old_locals
         self.loop_stack = old_loop_stack
-        self.try_stack = old_try_stack
+        self._pending_labels = old_pending_labels
         self.source_map = old_source_map
         self._in_function = old_in_function
         self._free_vars = old_free_vars
